@@ -51,7 +51,9 @@ def rand_value(rng, depth=3, tuples=False, nonstr_keys=False, big=True):
     r = rng.random()
     if depth <= 0 or r < 0.4:
         pool = ATOMS + ['\U0001F600', 'é', 'a b', -1, 2 ** 53, 2 ** 53 + 1, 1e300, 0.1, -float('inf'),
-                        'x' * 40, 10 ** 30]
+                        'x' * 40, 10 ** 30, 1 / 3, 0.1234567890123, 3.141592653589793, 2.5e-10, 5e-324,
+                        1.7976931348623157e308, -1e-7, 123456789.123456789, -(2 ** 63), 10 ** 20 + 1,
+                        '\ud800', 'tab\t', 'nl\n', 'quote"', 'back\\slash', '\x00nul', '\u2028']
         return rng.choice(pool)
     if r < 0.7:
         n = rng.randint(0, 3)
